@@ -95,6 +95,10 @@ def gen_case(rng, quick):
             ops.append('ginfo %s %s' % (hx(rand_name(rng, 1, 12)), hx(rand_name(rng, 0, 40) if not rng.chance(1, 4) else rand_name(rng, 4000, 9000))))
         # streams
         ns = rng.choice([1, 2, 3, 4, 6]) if not rng.chance(1, 8) else rng.range(12, 40)
+        if pg >= 4:
+            ns = min(ns, 6)      # every stream maps >= 3 buffers: keep the files (and the list-based Lean reader) small
+        elif pg >= 2:
+            ns = min(ns, 16)
         for si in range(ns):
             ops.append('stream %s' % hx(rand_name(rng, 1, 24) if not rng.chance(1, 10) else rand_name(rng, 120, 127)))
             used = 156
@@ -107,6 +111,7 @@ def gen_case(rng, quick):
                     used += 11 + len(k) + len(v)
         # events
         nkeys = len(names) + 1
+        budget = (60 if quick else 220) * 4071      # bytes of event records per process
         for si in range(ns):
             mode = rng.below(10)
             if mode == 0:
@@ -118,6 +123,8 @@ def gen_case(rng, quick):
             else:
                 ne = rng.range(300, 900 if quick else 4000) if big else rng.range(100, 300)
             for _ in range(ne):
+                if budget <= 0:
+                    break
                 key = rng.range(2, 2 * nkeys - 1)
                 fl = rng.choice([0, 0, 0, 2, 4, 8, 10, 6, 14]) if not rng.chance(1, 20) else rng.below(32768) * 2
                 tp = rng.choice([0, 1, 7, 4294967295, rng.below(1 << 32)])
@@ -140,6 +147,7 @@ def gen_case(rng, quick):
                         ops.append('ev %d %d %d %d %d %s' % (si2, key, fl, tp, eid, pl))
                         continue
                 ops.append('ev %d %d %d %d %d %s' % (si, key, fl, tp, eid, pl))
+                budget -= 24 + (0 if pl in ('-', 'e') else len(pl) // 2)
         if not rng.chance(1, 25):
             ops.append('write %d' % rng.choice([1, 2, 3, 4, 6, 8]))
         ops.append('close')
@@ -294,7 +302,7 @@ def oracle(ops, lines):
     return fails
 
 
-def run_batch(exe, basepath, cases, use_driver, timeout=900, args=(), env=None):
+def run_batch(exe, basepath, cases, use_driver, timeout=3600, args=(), env=None):
     """cases: list of writer-op lists.  Returns per case dict(ops, lines[(op, impl, model)], extra, crashed)."""
     script = []
     for k, c in enumerate(cases):
@@ -372,7 +380,7 @@ def shrink(exe, basepath, ops, pred):
     def failing(sub):
         rs, _, _, _ = run_batch(exe, basepath, [build(sub)], True, timeout=120)
         return pred(rs[0])
-    small = pv.ddmin(var, failing, max_tests=120)
+    small = pv.ddmin(var, failing, max_tests=60)
     return build(small)
 
 
@@ -391,7 +399,7 @@ def run(ctx, res, cases=None):
     else:
         ncorpus = 0
     # batches, a few in parallel (the harness itself runs up to 8 writer threads)
-    bs = 6 if ctx.quick else 12
+    bs = 6
     batches = [cases[i:i + bs] for i in range(0, len(cases), bs)]
     results = []
     stats = {}
